@@ -12,7 +12,7 @@ class S(vlib.Spec):
     harness_name = "c12"
     corr_codes = {1, 9}
     code_names = {1: "model and implementation disagree", 2: "two output files share a name",
-                  3: "named patch without target accepted", 4: "unnamed first item accepted", 9: "model out of fuel"}
+                  3: "named patch without target accepted", 4: "unnamed first item accepted", 5: "a file that must be kept is missing / dropped wrongly / misnamed", 6: "markers not removed or text changed (no patches)", 9: "model out of fuel"}
     modelled = ("generator/file_manager.go: FileManager.Feed (incl. the rename walk), insertReg.FindAllString, "
                 "insertionPointReplacer.Add/Replace (strings.NewReplacer generic algorithm), FileManager.BuildResponse "
                 "-> coq/Gen/FileManager.v; hand-written, tied by correspondence on every run")
@@ -24,7 +24,7 @@ class S(vlib.Spec):
     assumptions = ["filepath.Ext / fmt.Sprintf(%d) behave as split_ext / digits", "log output is not part of the observable"]
 
     def classify(self, code, case):
-        return {2: "C12-duplicate-output-name", 3: "C12-named-patch-no-target", 4: "C12-unnamed-first-accepted"}.get(code, "C12-code-%d" % code)
+        return {2: "C12-duplicate-output-name", 3: "C12-named-patch-no-target", 4: "C12-unnamed-first-accepted", 5: "C12-kept-files-bookkeeping", 6: "C12-text-or-markers-changed"}.get(code, "C12-code-%d" % code)
 
     def search(self, ctx):
         return None
